@@ -7,6 +7,8 @@ import re
 from coco.b09 import elements as E, visitors as V, grammar as G
 from coco.b09.compiler import convert
 from tx import f2, opaque
+from coco.b09.grammar import grammar
+from coco.b09.compiler import convert
 from tx.inject import convert_ast
 from tx.opaque import OpqExp, OpqStmt
 from tx.p_c05 import ob, guarded
@@ -19,7 +21,7 @@ def initialisation():
         res = []
         # every scalar shown to the pass is assigned before the first source line, once, sorted; DIMensioned names excluded
         v = V.VarInitializerVisitor()
-        for nm in ("B", "A$", "I", "A", "B", "Z9", "tmp_1", "display"):
+        for nm in ("B", "A$", "I", "A", "B", "Z9", "tmp_1", "display", "play", "pid", "erno", "tmp_1$", "tmp_12"):
             v.visit_var(E.BasicVar(nm, nm.endswith("$")))
         v.visit_for_statement(E.BasicForStatement(E.BasicVar("I"), OpqExp("a"), OpqExp("b")))
         v.visit_statement(E.BasicDimStatement([E.BasicVar("A$", True), aref("Q", (3,))]))
@@ -62,6 +64,32 @@ def data_items():
             st, _ = f2.build("data_statement", src, operand_rules={})
             got = [e.basic09_text(0) for e in st.exp_list.exp_list]
             res.append(ob("data/%s" % name, got == exp, exp, got, "items in textual order, each to the literal of its form"))
+        # an unquoted item is the text up to the next comma, colon or line end: every other printable character is data
+        bad = []
+        chars = [chr(c) for c in range(0x21, 0x7F) if chr(c) not in '",:']
+        for ch in chars:
+            src = "DATA X%sY,Z%s" % (ch, ch)
+            try:
+                node = grammar["data_statement"].parse(src)
+                st, _ = f2.build("data_statement", src, operand_rules={})
+                got = [e.basic09_text(0) for e in st.exp_list.exp_list]
+            except Exception as e:  # noqa
+                got = "%s: %s" % (type(e).__name__, str(e)[:80])
+            want = ['"X%sY"' % ch, '"Z%s"' % ch]
+            if got != want:
+                bad.append(dict(source=src, expected=want, got=got))
+        res.append(ob("data/unquoted items keep every printable character", not bad, "X<c>Y and Z<c> for all %d characters" % len(chars), bad[:4] or "all kept"))
+        # ... and through the statement list the item is not cut off into a comment or another statement
+        bad = []
+        for ch in "'!?;()=$#@":
+            src = "10 DATA IT%sS,OK\n" % ch
+            try:
+                text = convert(src, add_standard_prefix=False, add_suffix=False)
+            except Exception as e:  # noqa
+                text = "%s: %s" % (type(e).__name__, str(e)[:80])
+            if text.strip() != '10 DATA "IT%sS", "OK"' % ch:
+                bad.append(dict(source=src, got=text))
+        res.append(ob("data/unquoted item with punctuation through convert()", not bad, 'DATA "IT<c>S", "OK"', bad[:3] or "kept"))
         return res
     return guarded("data", run)
 
